@@ -44,6 +44,8 @@ pub struct Gen<'a> {
     pub nodes_left: usize,
     pub users: Vec<String>,
     pub counter: u32,
+    /// a (contract, key) that was just overwritten/removed in this tree: later probes look at it
+    pub watch: Option<(String, Vec<u8>)>,
 }
 
 fn ghost() -> String {
@@ -53,7 +55,7 @@ fn ghost() -> String {
 impl<'a> Gen<'a> {
     pub fn new(rng: &'a mut Rng, p: Profile, users: Vec<String>, tag_base: u32) -> Gen<'a> {
         let n = p.max_nodes;
-        Gen { rng, p, tag: tag_base, nonce: tag_base, nodes_left: n, users, counter: 0 }
+        Gen { rng, p, tag: tag_base, nonce: tag_base, nodes_left: n, users, counter: 0, watch: None }
     }
 
     fn pct(&mut self, p: u64) -> bool {
@@ -124,6 +126,11 @@ impl<'a> Gen<'a> {
         addrs.push(me.to_string());
         let a = if self.pct(5) { "bad address".to_string() } else if self.pct(5) { ghost() } else { self.rng.pick(&addrs).clone() };
         let contracts: Vec<String> = m.st.contracts.keys().cloned().chain(std::iter::once(me.to_string())).collect();
+        if let Some((wa, wk)) = self.watch.clone() {
+            if self.pct(50) {
+                return if self.pct(50) { Probe::WasmRaw { addr: wa, key: Binary::from(wk) } } else { Probe::WasmSmart { addr: wa } };
+            }
+        }
         let c = if self.pct(8) { ghost() } else { self.rng.pick(&contracts).clone() };
         match self.rng.below(12) {
             0 => Probe::Balance { addr: a, denom: self.rng.pick(&DENOMS).to_string() },
@@ -137,7 +144,7 @@ impl<'a> Gen<'a> {
             10 => {
                 let s = if self.pct(50) { Some(Binary::from(self.key(m, me))) } else { None };
                 let e = if self.pct(50) { Some(Binary::from(self.key(m, me))) } else { None };
-                Probe::OwnRange { start: s, end: e, desc: self.pct(50) }
+                Probe::OwnRange { start: s, end: e, desc: self.pct(50), what: self.rng.below(3) as u8 }
             }
             _ => Probe::OwnGet { key: Binary::from(self.key(m, me)) },
         }
@@ -153,6 +160,29 @@ impl<'a> Gen<'a> {
             for _ in 0..self.rng.range(1, 3) {
                 let p = self.probe(m, me);
                 s.probes.push(p);
+            }
+        }
+        // write patterns on keys that already exist below this transaction: overwrite-then-remove, remove-then-rewrite
+        if self.pct(self.p.write_pct / 3) {
+            let existing: Vec<Vec<u8>> = m.st.contracts.get(me).map(|c| c.storage.keys().cloned().collect()).unwrap_or_default();
+            if !existing.is_empty() {
+                let k = self.rng.pick(&existing).clone();
+                self.counter += 1;
+                let v = Binary::from(format!("{}:{}", tag, self.counter).into_bytes());
+                match self.rng.below(3) {
+                    0 => {
+                        s.writes.push((Binary::from(k.clone()), Some(v)));
+                        s.writes.push((Binary::from(k.clone()), None));
+                    }
+                    1 => {
+                        s.writes.push((Binary::from(k.clone()), None));
+                        s.writes.push((Binary::from(k.clone()), Some(v)));
+                    }
+                    _ => {
+                        s.writes.push((Binary::from(k.clone()), None));
+                    }
+                }
+                self.watch = Some((me.to_string(), k));
             }
         }
         if self.pct(self.p.write_pct) {
